@@ -3,6 +3,7 @@
 `getArgNames`): what the selected table holds.
 -/
 import MxlVerif.Lemmas.Init
+import MxlVerif.Lemmas.Sort
 import MxlVerif.Model.Queries
 namespace Mxl
 
@@ -112,6 +113,59 @@ theorem evalReadouts_spec : ∀ (ros : List (Name × Fn)) (scope raw raw' : Env)
       | cons y pre' =>
         simp only [List.cons_append, List.cons.injEq] at heq
         exact hholds pre' k ro suf heq.2 hargs
+
+/-! ### the readouts in dependency order -/
+
+theorem mapM_lookup_spec (tbl : List (Name × Fn)) :
+    ∀ (order : List Name) (ros : List (Name × Fn)),
+      order.mapM (fun k => match tbl.lookup k with
+        | some f => (pure (k, f) : Except Err (Name × Fn))
+        | none => .error (.keyError k)) = .ok ros →
+      omKeys ros = order ∧ ∀ kv ∈ ros, tbl.lookup kv.1 = some kv.2 := by
+  intro order
+  induction order with
+  | nil =>
+    intro ros h
+    simp only [List.mapM_nil, pure, Except.pure, Except.ok.injEq] at h
+    subst h; exact ⟨rfl, fun kv hkv => by cases hkv⟩
+  | cons k ks ih =>
+    intro ros h
+    rw [List.mapM_cons] at h
+    obtain ⟨kv, h1, h⟩ := bind_ok h
+    obtain ⟨rest, h2, h⟩ := bind_ok h
+    simp only [pure, Except.pure, Except.ok.injEq] at h
+    subst h
+    obtain ⟨ihk, ihv⟩ := ih rest h2
+    cases hl : tbl.lookup k with
+    | none => rw [hl] at h1; cases h1
+    | some f =>
+      rw [hl] at h1
+      simp only [pure, Except.pure, Except.ok.injEq] at h1
+      subst h1
+      refine ⟨by simp [omKeys] at ihk ⊢; exact ihk, ?_⟩
+      intro kv hkv
+      rcases List.mem_cons.mp hkv with rfl | hkv
+      · exact hl
+      · exact ihv kv hkv
+
+/-- `_sorted_readouts` returns every readout once, each with its own function, in an order in
+    which `_sort_dependencies` found each one ready -/
+theorem sortedReadouts_spec {c : Content} {scope : Env} {ros : List (Name × Fn)}
+    (hro : (omKeys c.readouts).Nodup) (h : sortedReadouts c scope = .ok ros) :
+    (omKeys ros).Perm (omKeys c.readouts) ∧ (omKeys ros).Nodup ∧
+    (∀ kv ∈ ros, c.readouts.lookup kv.1 = some kv.2) ∧
+    Sched (c.readouts.map fun kv => { name := kv.1, required := kv.2.args, provided := [kv.1] })
+      (scope.map (·.1)) (omKeys ros) := by
+  unfold sortedReadouts at h
+  obtain ⟨order, h1, h2⟩ := bind_ok h
+  obtain ⟨hk, hv⟩ := mapM_lookup_spec c.readouts order ros h2
+  have hnames : ((c.readouts.map fun kv =>
+      ({ name := kv.1, required := kv.2.args, provided := [kv.1] } : Dep)).map (·.name)) =
+      omKeys c.readouts := by simp [omKeys, List.map_map, Function.comp_def]
+  obtain ⟨hperm, hsched, _⟩ := sortDeps_ok_sched _ _ (by rw [hnames]; exact hro) order h1
+  rw [hnames] at hperm
+  rw [hk]
+  exact ⟨hperm, hperm.nodup_iff.mpr hro, hv, hsched⟩
 
 /-! ### the selected table -/
 
